@@ -230,7 +230,8 @@ func (c *immuClient) _streamVerifiedSet(ctx context.Context, kvs []*stream.KeyVa
 		}
 	}
 
-	if tx.Header().Eh != schema.DigestFromProto(verifiableTx.DualProof.TargetTxHeader.EH) {
+	if tx.Header().Eh != schema.DigestFromProto(verifiableTx.DualProof.TargetTxHeader.EH) ||
+		tx.Header().Eh != schema.DigestFromProto(verifiableTx.Tx.Header.EH) {
 		return nil, store.ErrCorruptedData
 	}
 
